@@ -57,6 +57,11 @@ def audit(Q, option_of, rep, activity, tol=1e-9, exact=False):
                     and ep[-2].exit_date > ep[-2].service_start_date and ep[-1].service_end_date <= ep[-2].exit_date:
                 # released while still interrupted (it was blocked at the shift end): the final record restores the original interval
                 ep = ep[:-2] + [ep[-1]]
+            junk = [(x.record_type, f, repr(getattr(x, f))) for x in ep for f in ("service_start_date", "service_time", "service_end_date", "exit_date")
+                    if isinstance(getattr(x, f), (bool, str)) or getattr(x, f) is None]
+            if junk:
+                rep("episode-record-fields-are-numbers", {"customer": ind.id_number, "node": nid, "fields": junk[:4]})
+                continue
             S_ = samples.get((ind.id_number, nid), [])
             p0 = ptr[nid]
             need = len(ep) if opt == "resample" else 1
